@@ -910,6 +910,136 @@ theorem isAbsolutePathname_eq (v : Bytes) (url : Bool) :
       by_cases h : b = 0x2F <;> simp [h]
     simp only [List.isEmpty_cons, Bool.false_eq_true, ↓reduceIte, List.head?_cons, hh, hl, h0, h0', h1]
 
+/-! ### the component inputs of a URL-string input -/
+
+theorem slice_mid (P M S : Bytes) : Agg.slice (P ++ (M ++ S)) P.length (P.length + M.length) = M := by
+  unfold Agg.slice
+  rw [← List.append_assoc, List.take_left' (by simp), List.drop_left' rfl]
+
+open AdaVerif.Model.Agg AdaVerif.Lemmas.AggL in
+theorem getUsername_layout (l : L) (h : NoAuthNoCred l) : getUsername (layout l) = l.user := by
+  unfold getUsername hasNonEmptyUsername
+  cases ha : l.auth with
+  | false =>
+    obtain ⟨hu, _⟩ := h ha
+    have : ¬ ((layout l).pe + 2 < (layout l).ue) := by simp [layout, ha, authS, hu]
+    simp [this, hu]
+  | true =>
+    by_cases hu : l.user = []
+    · have : ¬ ((layout l).pe + 2 < (layout l).ue) := by simp [layout, ha, authS, hu]
+      simp [this, hu]
+    · have hlen : 0 < l.user.length := List.length_pos_iff.mpr hu
+      have hc : (layout l).pe + 2 < (layout l).ue := by simp [layout, ha, authS]; omega
+      simp only [hc, decide_true, ↓reduceIte]
+      have hb : (layout l).buf = (l.scheme ++ [0x2F, 0x2F]) ++ (l.user ++ (passS l.pass ++ atS l.user l.pass ++ l.host ++ portS l.port ++
+          ddS l.dashdot ++ l.path ++ queryS l.query ++ fragS l.frag)) := by
+        simp [layout, ha, authS, List.append_assoc]
+      have h1 : (layout l).pe + 2 = (l.scheme ++ [0x2F, 0x2F]).length := by simp [layout]
+      have h2 : (layout l).ue = (l.scheme ++ [0x2F, 0x2F]).length + l.user.length := by simp [layout, ha, authS]
+      rw [hb, h1, h2]
+      exact slice_mid _ _ _
+
+open AdaVerif.Model.Agg AdaVerif.Lemmas.AggL in
+theorem getPassword_layout (l : L) : getPassword (layout l) = l.pass := by
+  unfold getPassword hasNonEmptyPassword
+  by_cases hp : l.pass = []
+  · have : ¬ ((layout l).hs > (layout l).ue) := by simp [layout, passS, hp]
+    simp [this, hp]
+  · have hpe : l.pass.isEmpty = false := by simpa using hp
+    have hc : (layout l).hs > (layout l).ue := by simp [layout, passS, hpe]
+    simp only [hc, decide_true, ↓reduceIte]
+    have hb : (layout l).buf = (l.scheme ++ authS l.auth ++ l.user ++ [0x3A]) ++ (l.pass ++ (atS l.user l.pass ++ l.host ++ portS l.port ++
+        ddS l.dashdot ++ l.path ++ queryS l.query ++ fragS l.frag)) := by
+      simp [layout, passS, hpe, List.append_assoc]
+    have h1 : (layout l).ue + 1 = (l.scheme ++ authS l.auth ++ l.user ++ [0x3A]).length := by simp [layout]; omega
+    have h2 : (layout l).hs = (l.scheme ++ authS l.auth ++ l.user ++ [0x3A]).length + l.pass.length := by
+      simp [layout, passS, hpe]; omega
+    rw [hb, h1, h2]
+    exact slice_mid _ _ _
+
+open AdaVerif.Model.Agg AdaVerif.Lemmas.AggL in
+theorem getPort_layout (l : L) (hd : l.dashdot = false) : getPort (layout l) = match l.port with | some (_, d) => d | none => [] := by
+  unfold getPort
+  cases hp : l.port with
+  | none => simp [layout, hp]
+  | some pd =>
+    obtain ⟨pv, d⟩ := pd
+    have hn : (layout l).port.isNone = false := by simp [layout, hp]
+    simp only [hn, Bool.false_eq_true, ↓reduceIte]
+    have hb : (layout l).buf = (l.scheme ++ authS l.auth ++ l.user ++ passS l.pass ++ atS l.user l.pass ++ l.host ++ [0x3A]) ++ (d ++
+        (l.path ++ queryS l.query ++ fragS l.frag)) := by
+      simp [layout, hp, portS, hd, ddS, List.append_assoc]
+    have h1 : (layout l).he + 1 = (l.scheme ++ authS l.auth ++ l.user ++ passS l.pass ++ atS l.user l.pass ++ l.host ++ [0x3A]).length := by
+      simp [layout]; omega
+    have h2 : (layout l).ps = (l.scheme ++ authS l.auth ++ l.user ++ passS l.pass ++ atS l.user l.pass ++ l.host ++ [0x3A]).length + d.length := by
+      simp [layout, hp, portS, hd, ddS]; omega
+    rw [hb, h1, h2]
+    exact slice_mid _ _ _
+
+open AdaVerif.Model.Agg AdaVerif.Lemmas.AggL in
+theorem getHostname_layout (l : L) (hh : l.user = [] → l.pass = [] → l.host.headD 0 ≠ 0x40) : getHostname (layout l) = l.host := by
+  by_cases hc : l.user = [] ∧ l.pass = []
+  · exact getHostname_nocred l hc.1 hc.2 (hh hc.1 hc.2)
+  · have hat : atS l.user l.pass = [0x40] := by
+      unfold atS
+      by_cases hu : l.user = []
+      · have hp : l.pass ≠ [] := fun e => hc ⟨hu, e⟩
+        have : l.pass.isEmpty = false := by simpa using hp
+        simp [hu, this]
+      · have : l.user.isEmpty = false := by simpa using hu
+        simp [this]
+    have hslice := hostSlice_layout l
+    rw [hat] at hslice
+    unfold getHostname
+    have hb : (layout l).buf = (l.scheme ++ authS l.auth ++ (l.user ++ passS l.pass)) ++ (([0x40] ++ l.host) ++
+        (portS l.port ++ (ddS l.dashdot ++ (l.path ++ (queryS l.query ++ fragS l.frag))))) := by
+      simp [layout, List.append_assoc, hat]
+    have hgt : (layout l).he > (layout l).hs := by simp [layout, hat]; omega
+    have hatc : at_ (layout l).buf (layout l).hs = 0x40 := by
+      rw [at_eq hb (hs_eq l)]; rfl
+    simp only [hgt, decide_true, hatc, beq_self_eq_true, Bool.and_self, ↓reduceIte]
+    have h1 : (layout l).hs + 1 = (l.scheme ++ authS l.auth ++ (l.user ++ passS l.pass) ++ [0x40]).length := by
+      rw [hs_eq]; simp; omega
+    have h2 : (layout l).he = (l.scheme ++ authS l.auth ++ (l.user ++ passS l.pass) ++ [0x40]).length + l.host.length := by
+      simp [layout, hat]; omega
+    have hb2 : (layout l).buf = (l.scheme ++ authS l.auth ++ (l.user ++ passS l.pass) ++ [0x40]) ++ (l.host ++
+        (portS l.port ++ (ddS l.dashdot ++ (l.path ++ (queryS l.query ++ fragS l.frag))))) := by
+      rw [hb]; simp [List.append_assoc]
+    rw [hb2, h1, h2]
+    exact slice_mid _ _ _
+
+open AdaVerif.Model.Agg AdaVerif.Lemmas.AggL in
+/-- **the component inputs `match()` / `test()` read off a parsed URL** are the fields that were laid out: scheme without its
+    ':', credentials, host, port digits, path, query and fragment without their delimiters (an empty one reads as empty) -/
+theorem urlInputs_layout (l : L) (hna : NoAuthNoCred l) (hpd : l.port.isSome = true → l.dashdot = false)
+    (hh : l.user = [] → l.pass = [] → l.host.headD 0 ≠ 0x40) :
+    urlInputs (layout l) =
+      [l.scheme.dropLast, l.user, l.pass, l.host, (match l.port with | some (_, d) => d | none => []), l.path,
+       l.query.getD [], l.frag.getD []] := by
+  unfold urlInputs
+  have hport : getPort (layout l) = match l.port with | some (_, d) => d | none => [] := by
+    cases hp : l.port with
+    | none => simp [getPort, layout, hp]
+    | some pd => rw [← hp]; exact getPort_layout l (hpd (by simp [hp]))
+  rw [Props.C07.getProtocol_layout, getUsername_layout l hna, getPassword_layout, getHostname_layout l hh, hport,
+    Props.C07.getPathname_layout, Props.C07.getSearch_layout, Props.C07.getHash_layout]
+  have hss : (layout l).ss.isSome = l.query.isSome := by simp [layout]; cases l.query <;> simp
+  have hhh : (layout l).hh.isSome = l.frag.isSome := by simp [layout]; cases l.frag <;> simp
+  simp only [hss, hhh]
+  congr 1; congr 1; congr 1; congr 1; congr 1; congr 1
+  congr 1
+  · cases hq : l.query with
+    | none => rfl
+    | some q => cases q with
+      | nil => rfl
+      | cons c t => simp
+  · congr 1
+    cases hf : l.frag with
+    | none => rfl
+    | some f => cases f with
+      | nil => rfl
+      | cons c t => simp
+
 /-! ### `process_*` -/
 
 theorem canonPort_fake (v : Bytes) : Spec.Pattern.canonPort v (some [0x66, 0x61, 0x6B, 0x65]) = Spec.Pattern.canonPort v none := by
